@@ -485,6 +485,8 @@ pub fn random_case(seed_rng: &mut Rng) -> Case {
     };
     let mut ops = vec![Op::Frame { w: 80, h: 24 }];
     let mut round = vec![0usize; nt];
+    // the first ttl probed (--first-ttl): the rows of the table then do not start at ttl 1
+    let first: Vec<u8> = (0..nt).map(|_| *r.pick(&[1u8, 1, 1, 2, 3, 4])).collect();
     let mut paths: Vec<Vec<Path>> = vec![vec![]; nt];
     for t in 0..nt {
         let len = r.range(1, 9) as usize;
@@ -517,7 +519,7 @@ pub fn random_case(seed_rng: &mut Rng) -> Case {
             round[t] += 1;
             let p = r.pick(&paths[t]).clone();
             let p: Path = p.iter().map(|h| if r.chance(1, 12) { None } else { *h }).collect();
-            ops.push(round_of_path(t, round[t], 1, &p, 0));
+            ops.push(round_of_path(t, round[t], first[t], &p, 0));
         } else {
             ops.push(Op::Key((*r.pick(KEYS)).to_string()));
             if r.chance(1, 2) {
